@@ -777,3 +777,24 @@ pub fn loose(r: &mut Rng, o: &GenOpts) -> Spec {
     g.r.shuffle(&mut lines);
     Spec { n, meta: vec![], lines }
 }
+
+/// Turn a building into one without any EPB use: every EPB consumption becomes a non-EPB one (or the building
+/// only produces); auxiliaries and outputs, which only exist for EPB services, are dropped.
+pub fn without_epb_use(spec: &mut Spec, r: &mut Rng) {
+    let only_production = r.chance(1, 3);
+    spec.lines.retain(|l| !matches!(l, Line::Aux { .. } | Line::Out { .. }));
+    if only_production {
+        spec.lines.retain(|l| !matches!(l, Line::Used { srv, .. } if srv != "COGEN"));
+    } else {
+        for l in spec.lines.iter_mut() {
+            if let Line::Used { srv, .. } = l {
+                if EPB.contains(&srv.as_str()) {
+                    *srv = "NEPB".to_string();
+                }
+            }
+        }
+    }
+    if !spec.lines.iter().any(|l| matches!(l, Line::Used { .. } | Line::Prod { .. })) {
+        spec.lines.push(Line::Prod { id: 0, src: "EL_INSITU".into(), v: vec![10.0; spec.n], comment: String::new() });
+    }
+}
